@@ -92,6 +92,10 @@ struct Value {
                     fprintf(stderr, "parse error, unclosed [bracket (expected: ']') in \"%s\"\n", args_string);
                     exit(1);
                 }
+                // the group is part of the word it occurs in, which goes on until the next separator
+                // (the word used to be cut at the closing bracket and the character behind it dropped)
+                i--;
+                continue;
             }
             if (i == args_len || (ch == ']' || ch == ' ' || ch == '\t' || ch == '\n' || ch == '\r' || ch == '#')) {
                 if (start == i) {
